@@ -550,6 +550,16 @@ func (c *Ctx) checkCmdDispatch() {
 				}
 			}
 		}
+		if len(fl) == 0 {
+			// the flags listed, in order, in a package-level table that the function walks
+			allInstrs(ex.F, func(in ssa.Instruction) {
+				if u, ok := in.(*ssa.UnOp); ok && u.Op == token.MUL && len(fl) == 0 {
+					if g, ok := u.X.(*ssa.Global); ok {
+						fl = c.globalTableFlagOrder(g)
+					}
+				}
+			})
+		}
 		L.Check(strings.Join(ref, ",") == strings.Join(fl, ","), "format-dispatch", ex.label, "same priority order as the reader", c.P.Pos(ex.F.Pos()), strings.Join(fl, " > "), fmt.Sprintf("extension table tests %v, reader tests %v", fl, ref))
 	}
 	// library ReadAlign: format constants
